@@ -250,7 +250,10 @@ class Impl:
             pl = self.pipes[refs[0][0]][0] if refs else self.pipes[0][0]
             try:
                 fl = self.sc.get("flags") or {}      # flags the executor's admission and accounting must ignore
-                a = Assignment(ops, cpu, num(ram), self.Priority(prio), pool, pl.pipeline_id,
+                # an assignment flagged as a resumption may also name the container it continues (the REST protocol and `Assignment` carry the
+                # field): it is still a new container, with a number of its own
+                old = self.rcids[max(self.rcids)] if (fl.get("is_resume") and self.rcids) else None
+                a = Assignment(ops, cpu, num(ram), self.Priority(prio), pool, pl.pipeline_id, container_id=old,
                                is_resume=bool(fl.get("is_resume")), force_run=bool(fl.get("force_run")))
                 self.pend_a.append(a)
                 return {"ok": True, "st": self.states(), "cnt": self.counts()}
